@@ -60,6 +60,9 @@ class Column:
     ptype: str                    # one of TYPES
     rep: str = "REQUIRED"         # REQUIRED | OPTIONAL   (REPEATED is accepted by the driver, not generated)
     type_length: int = 0          # FIXED_LEN_BYTE_ARRAY only
+    logical: Optional[str] = None  # LogicalType annotation passed to carquet_schema_add_column, e.g. "DECIMAL:18:0"
+                                   # (precision:scale), "INT:8:0" (bits:signed), "TIME:0:MILLIS" / "TIMESTAMP:1:NANOS"
+                                   # (isAdjustedToUTC:unit), "STRING", "DATE", "ENUM", "JSON", "BSON", "UUID", "FLOAT16"
 
     def width(self):
         """Bytes per value for fixed-width types, None for BYTE_ARRAY."""
@@ -274,7 +277,8 @@ class Script:
     def write(self, case, path=None):
         """Append the whole write history of `case` (to `path`, or to case.sink)."""
         for c in case.schema.columns:
-            self.lines.append(f"COL {c.name.encode().hex() or '-'} {c.ptype} {c.rep} {c.type_length}")
+            self.lines.append(f"COL {c.name.encode().hex() or '-'} {c.ptype} {c.rep} {c.type_length}"
+                              + (f" logical={c.logical}" if c.logical else ""))
         self.lines.append(case.options.line())
         if case.sink is not None:
             self.lines.append("WOPEN sink " + case.sink.tokens())
@@ -574,8 +578,11 @@ class Dump:
     def table(self, drop_empty=False):
         """[row group][column] -> rows, from the chunks dumped (expected_table's representation)."""
         t = []
+        by_rg = {}
+        for c in self.chunks:                       # (one pass: files with 10^5 row groups)
+            by_rg.setdefault(c.rg, []).append(c)
         for r in range(max(self.num_row_groups, 0)):
-            cols = [c.rows() for c in self.chunks if c.rg == r]
+            cols = [c.rows() for c in by_rg.get(r, [])]
             if drop_empty and cols and all(len(c) == 0 for c in cols):
                 continue
             t.append(cols)
